@@ -42,7 +42,8 @@ ASSUMPTIONS = ['input strings are Latin-1',
                'proved inside the model for statements written in de-normalised form (C20_reparsed_graph), for whole scripts of such '
                'statements through splitter, per-statement parse and cross-equation merge (C20_script_graph_edges); for source statements '
                'with { } / < > terms under source-side conditions only (C20_source_statement_wf, C20_source_script_graph: dq_ok + sep_ok, '
-               'normal spacing between tokens); and for the renderings of all Eval statements (C20_rendered_statements_wf)',
+               'normal spacing between tokens; C20_source_any_blanks_wf / _statement_graph / _script_graph: dq_ok_ws + sep_ok, any runs of '
+               'blanks and continuation lines); and for the renderings of all Eval statements (C20_rendered_statements_wf)',
                'the link to the evaluation semantics (Eval.eval_expr) is proved for statements rendered by GNorm.rstmt (fully parenthesised)',
                'conditional expressions read only the selected branch: "every in-edge is read" is proved / observed for conditional-free '
                'equations, and observed on at least one of three data vectors otherwise']
@@ -344,6 +345,7 @@ CORPUS = [
     'Y = max(X, Z[-2]) + min (W, 1)', 'Y = np.sqrt(X) + abs(-Z)', 'Y = <e> + {a}[-1] + < eps >[ 2 ]', 'Y = 2e5 * X', 'Y = X.T',
     'Y = X\nZ = Y[-1]\nW = Z + Y', 'Y = X\n```\nfoo = 1\n```\nZ = W', '`x = 1`', '', 'Y = a < b > c', 'Y = 1 if{a}else 2', 'Y = X==Z',
     'Y = X\nY = X', 'Y = f(X) + g.h(Z)', '```\npass\n```\nY = X', 'Y = X\n`k = 1`', '```\nx = Y[t] + 1\nz = 2\n```\nY = X + Z', '`pass`', '```\npass\n```', 'Z==()', 'Y[=1]', 'Y = (X +\n  Z)', '(Y =\n X)', 'Y = X[ -1 ]+X[+1]',
+    'b = {as} * X\nY = <if> + b[-1]',     # terms named like reserved words (C14|fixed-point|reserved-word-name): the graph is still exact
 ]
 
 
